@@ -3,6 +3,7 @@ package checks
 import (
 	"fmt"
 	"math/big"
+	"strings"
 
 	"github.com/atombender/go-jsonschema/pkg/mathutils"
 
@@ -355,6 +356,12 @@ func init() {
 					docs = append(docs, mk(v, false))
 				}
 				pcs = append(pcs, baseCase("c05-multiple-float", schema, docs, "number", string(pos), "multipleOf"))
+			}
+		}
+		for _, pc := range nearDupCases(c, "c05-near-duplicates") {
+			l := pc.Labels[0]
+			if strings.Contains(l, "minimum") || strings.Contains(l, "maximum") || strings.Contains(l, "multipleOf") || strings.Contains(l, "exclusive") {
+				pcs = append(pcs, pc)
 			}
 		}
 		res := runCases(c, pcs)
